@@ -388,6 +388,10 @@ class Evaluator:
                     raise PyRaise("KeyError", str(err))
             if isinstance(recv, tuple) and m in ("index", "count"):
                 return getattr(recv, m)(*args)
+            if recv is dict and m == "fromkeys":
+                return dict.fromkeys(*args)
+            if recv is str and m in STR_METHODS and args and isinstance(args[0], str):
+                return getattr(str, m)(*args, **kw)
             if recv is None:
                 raise PyRaise("AttributeError", "None.%s" % m)
             if isinstance(recv, (str, int)) and m in ("match", "search"):
